@@ -236,7 +236,8 @@ where
                     let node_len = bytes.get_u64() as usize;
                     let lane_len = bytes.get_u64() as usize;
 
-                    if bytes.remaining() < host_len + node_len + lane_len + ID_LEN {
+                    let names_len = address_len(host_len, node_len, lane_len)?;
+                    if bytes.remaining() < names_len + ID_LEN {
                         *state = DecoderState::ReadingRegistration(flags);
                         break Ok(None);
                     }
@@ -289,7 +290,7 @@ where
                     let node_len = bytes.get_u64() as usize;
                     let lane_len = bytes.get_u64() as usize;
 
-                    if bytes.remaining() < host_len + node_len + lane_len {
+                    if bytes.remaining() < address_len(host_len, node_len, lane_len)? {
                         *state = DecoderState::ReadingAddressedHeader(flags);
                         break Ok(None);
                     }
@@ -342,6 +343,19 @@ where
             }
         }
     }
+}
+
+/// The combined length of the parts of an address (which is never more than the length of a frame).
+fn address_len(host_len: usize, node_len: usize, lane_len: usize) -> Result<usize, FrameIoError> {
+    host_len
+        .checked_add(node_len)
+        .and_then(|len| len.checked_add(lane_len))
+        .filter(|len| *len <= usize::MAX - ID_LEN)
+        .ok_or_else(|| {
+            FrameIoError::BadFrame(swimos_api::error::InvalidFrame::InvalidHeader {
+                problem: Text::new("Ad-hoc message header lengths out of range."),
+            })
+        })
 }
 
 fn try_extract_utf8<S: TryFromUtf8Bytes>(
